@@ -45,8 +45,12 @@ def cases(tier, seed):
     for no, cc in SWEEP_GROUPS:
         g = sg.sg(sgno=no, cell_choice=cc)
         for cell in sweep_cells(g.crystal_system, g.cell_choice, tier):
-            for mod in (("tools",) if tier == "quick" else ("tools", "laue")):
+            for mod in (("tools",) if (tier == "quick" and max(cell[:3]) < 2000) else ("tools", "laue")):
                 cs.append({"mod": mod, "no": no, "cc": cc, "cell": cell, "tier": tier, "names": [], "seed": seed, "sweep": True})
+    # very large cells (virus-size, > 1000 A): absolute tolerances on reciprocal quantities bite here; shells with bounds 5e-9 from lattice values
+    for no, cell in ((19, [1012.7, 1187.4, 1365.9, 90.0, 90.0, 90.0]), (2, [1012.7, 1187.4, 1365.9, 82.0, 97.0, 104.0]), (75, [1503.3, 1503.3, 1211.9, 90.0, 90.0, 90.0])):
+        for mod in ("tools", "laue"):
+            cs.append({"mod": mod, "no": no, "cc": "standard", "cell": cell, "tier": tier, "names": [], "seed": seed, "big": True})
     # cells typed with whole numbers, in every container / dtype (alph.kinds): one representative group per Laue class / setting
     for no, cc in SWEEP_GROUPS:
         g = sg.sg(sgno=no, cell_choice=cc)
@@ -66,13 +70,14 @@ def sweep_cells(cs_, cc, tier):
         angs = [60, 75, 90, 105, 120] if tier == "quick" else [50, 60, 75, 90, 105, 120, 130]
         cells = [[a, b, c, float(x), float(y), float(z)] for x in angs for y in angs for z in angs if alph.gram(x, y, z) >= 0.1]
         cells += [[a, b, c, 90.0004, 89.9996, 90.0], [a, b, c, 150.0, 90.0, 90.0], [a, b, c, 90.0, 90.0, 30.0], [c, a, b, 80.0, 85.0, 150.0]]
-        return cells[:: (4 if tier == "quick" else 1)]
+        return cells[:: (4 if tier == "quick" else 1)] + [[3.0, 4.0, 2400.0, 90.0, 90.0, 90.0]]
     if cs_ == "monoclinic":
         bs = [50, 70, 90.0004, 110, 130, 150] if tier == "quick" else [40, 50, 60, 70, 80, 89.9996, 90.0004, 100, 110, 120, 130, 140, 150, 160]
         return [[a, b, c, 90.0, float(x), 90.0] for x in bs] + [[c, b, a, 90.0, float(x), 90.0] for x in bs[::2]]
     # LONG marks cells with one very long axis: a thin shell there reaches |index| > 127 (and > 255 in thorough)
     if cs_ == "orthorhombic":
-        return [[a, b, c, 90., 90., 90.], [c, a, b, 90., 90., 90.], [2.0, 9.0, 4.0, 90., 90., 90.], [9.0, 2.0, 4.0, 90., 90., 90.], [3.0, 3.5, 380.0, 90., 90., 90.]]
+        return [[a, b, c, 90., 90., 90.], [c, a, b, 90., 90., 90.], [2.0, 9.0, 4.0, 90., 90., 90.], [9.0, 2.0, 4.0, 90., 90., 90.], [3.0, 3.5, 380.0, 90., 90., 90.],
+                [3.0, 4.0, 2400.0, 90., 90., 90.], [3.0, 2400.0, 4.0, 90., 90., 90.]]  # indices beyond 1000 on l / on k
     if cs_ == "tetragonal":
         return [[a, a, x, 90., 90., 90.] for x in (1.5, 4.1, 9.7)] + [[3.0, 3.0, 400.0, 90., 90., 90.]] + ([[3.0, 3.0, 900.0, 90., 90., 90.]] if tier == "thorough" else [])
     if cs_ in ("trigonal", "hexagonal"):
@@ -118,7 +123,9 @@ def check_case(case):
                   (1.9 / m, 3.63 / m), (2.4 / m, 3.98 / m)]
         if max(cell[:3]) > 100:  # long axis: a thin shell that contains (0,0,l) with l ~ 130 (or ~ 300) and its neighbours
             M = max(cell[:3])
-            shells = [(64.2 / M, 68.7 / M)] if M < 500 else [(150.2 / M, 152.1 / M)]
+            shells = [(64.2 / M, 68.7 / M)] if M < 500 else ([(150.2 / M, 152.1 / M)] if M < 2000 else [(0.24295, 0.24305)])  # the last: |index| ~ 1000 on the long axis
+    elif case.get("big"):
+        shells = [(0.0, 0.0045), (0.002, 0.0036)]
     elif not case.get("far", True):
         shells = shells[:-1]  # far-out thin shell: xfab.laue runs it on the first cell of each setting only (C14 compares the modules)
     orc = G.Oracle(g, cell, max(s[1] for s in shells))
